@@ -119,7 +119,11 @@ def input_checks(ck, n):
     for name, col in (("bruttokaltmiete_m_hh", reals("bruttokaltmiete_m_hh", n)), ("bewohnt_eigentum_hh", bools("bewohnt_eigentum_hh", n)),
                       ("immobilie_baujahr_hh", ints("immobilie_baujahr_hh", n))):
         data = {"hh_id": hh, name: col}
-        v, ctx = run_check(I._fail_if_group_variables_not_constant_within_groups, data)
+        try:
+            v, ctx = run_check(I._fail_if_group_variables_not_constant_within_groups, data)
+        except R.Unsupported as e:
+            ck.add_inconclusive(f"{name} varies within a household N={n}: not encodable ({e})")
+            continue
         ck.functions |= ctx.funcs
         varies = z3.Or([z3.And(hh.e[i].t == hh.e[j].t, R.lift(col.e[i])[0] != R.lift(col.e[j])[0]) for i in range(n) for j in range(i + 1, n)]) if n > 1 else z3.BoolVal(False)
         iff_obligations(ck, f"{name} varies within a household", varies, raises_guard(ctx), [h.t >= 0 for h in hh.e], data,
@@ -127,8 +131,43 @@ def input_checks(ck, n):
     group_level_columns(ck, n)
     # individual-level column is never touched by the group check
     data = {"hh_id": hh, "bruttolohn_m": reals("bruttolohn_m", n)}
-    v, ctx = run_check(I._fail_if_group_variables_not_constant_within_groups, data)
-    ck.oblige(f"individual-level column passes the group check N={n}", [raises_guard(ctx)], 30)
+    try:
+        v, ctx = run_check(I._fail_if_group_variables_not_constant_within_groups, data)
+        ck.oblige(f"individual-level column passes the group check N={n}", [raises_guard(ctx)], 30)
+    except R.Unsupported as e:
+        ck.add_inconclusive(f"individual-level column passes the group check N={n}: not encodable ({e})")
+    missingness_witness(ck, n)
+
+
+def missingness_witness(ck, n):
+    """NaN is outside the solver model (floats are reals).  Concrete supplement, NOT the deciding step: for every
+    household pattern of n rows and every placement of NaN / 1.0 in a float *_hh column, a household holding both a
+    missing and a present value must be rejected by the real check (all-missing households are left unspecified)."""
+    import itertools
+    import pandas as pd
+    from _gettsim import interface as I
+    ck.obligations += 1
+    bad = None
+    cases = 0
+    for hh in itertools.product(range(2), repeat=n):
+        for vals in itertools.product((float("nan"), 1.0), repeat=n):
+            mixed = any(hh[i] == hh[j] and (vals[i] != vals[i]) != (vals[j] != vals[j]) for i in range(n) for j in range(n))
+            if not mixed:
+                continue
+            cases += 1
+            data = {"hh_id": pd.Series(list(hh)), "bruttokaltmiete_m_hh": pd.Series(list(vals), dtype=float)}
+            try:
+                I._fail_if_group_variables_not_constant_within_groups(data)
+                bad = bad or {"hh_id": list(hh), "bruttokaltmiete_m_hh": [None if v != v else v for v in vals]}
+            except ValueError:
+                pass
+    ck.extra["missingness_witness_cases"] = ck.extra.get("missingness_witness_cases", 0) + cases
+    if bad is None:
+        ck.discharged += 1
+    else:
+        ck.violation(["_fail_if_group_variables_not_constant_within_groups", "missing-vs-present accepted"],
+                     f"a household-level float input that is missing (NaN) for one member and present for another is accepted: {bad}",
+                     {"kind": "nan", "data": bad})
 
 
 def group_level_columns(ck, n, pid="C20"):
@@ -389,6 +428,16 @@ def replay(path):
         out = GT.convert_series_to_internal_type(pd.Series([d["v"]], dtype="int64"), float)
         print(d["v"], "->", repr(out.iloc[0]))
         return 1 if int(out.iloc[0]) != d["v"] else 0
+    if d["kind"] == "nan":
+        data = {"hh_id": pd.Series(d["data"]["hh_id"]),
+                "bruttokaltmiete_m_hh": pd.Series([float("nan") if v is None else v for v in d["data"]["bruttokaltmiete_m_hh"]], dtype=float)}
+        try:
+            I._fail_if_group_variables_not_constant_within_groups(data)
+            print("accepted")
+            return 1
+        except ValueError as e:
+            print("rejected:", str(e)[:60])
+            return 0
     if d["kind"] == "data":
         fn = getattr(I, d["fn"])
         try:
